@@ -319,7 +319,7 @@ Definition wf_change_bodyb (c : change_body) : bool :=
   && wf_bytesb (cb_message c) && (lenN (cb_message c) <? pow64) && utf8_valid (cb_message c)
   && forallb (fun a => wf_bytesb a && (lenN a <? pow64)) (cb_others c)
   && (N.of_nat (length (cb_others c)) <? pow64)
-  && forallb (fun sl => fst sl <=? u32_max) (cb_cols c)
+  && forallb (fun sl => (fst sl <=? u32_max) && (snd sl <? pow64)) (cb_cols c)
   && (N.of_nat (length (cb_cols c)) <? pow64)
   && normal_sorted (map fst (cb_cols c))
   && negb (existsb spec_deflate (map fst (cb_cols c)))
